@@ -1,5 +1,6 @@
 import MW.Inv.GReach
 import MW.Chain.World
+import MW.Inv.WorldInv
 /-!
 # C03 — LST supply integrity and exact delivery of minted tokens
 -/
@@ -105,16 +106,84 @@ theorem C03_burn (s s' : CState) (env : Env) (info : Info) (out : List SubMsg)
   subst hout
   exact ⟨batch, hb, rfl, by simp [burnSum_append, ho3, burnSum, plain]⟩
 
-/-- what the contract holds: an unstake adds exactly the LST handed in to the pending batch total
-(the custody equation `balance = pending total + refundable + donations` is evaluated on the
-simulator's ledgers by the monitor `L2_custody`; its proof over the chain model is not completed) -/
-theorem C03_custody_partial (s s' : CState) (env : Env) (info : Info) (a : Nat) (out : List SubMsg)
+/-- **L1 on the chain's own ledger, every history.**  Along every history of the chain model that
+satisfies the honest-environment conditions, the token-factory supply of the LST plus the term
+declared by the admin's ResumeContract equals the LST total of the State query -/
+theorem C03_supply_world {env : Env} {info : Info} {msg : InstantiateMsg} {c0 : CState} {out : List SubMsg}
+    (hi : instantiate env info msg = .ok (c0, out)) (self pfx : String) (t hgt : Nat) (evs : List Event)
+    (hok : AllOK (bootWorld c0 self pfx t hgt) evs) :
+    let r := runW (bootWorld c0 self pfx t hgt) {} evs
+    (r.1.supply r.1.c.config.lstDenom : Int) + r.2.rebaseL = r.1.c.st.totalLst :=
+  (world_history_winv hi self pfx t hgt evs hok).l1
+
+/-- **L2 (custody), every history.**  The contract's own LST balance on the bank ledger equals the total
+of the pending unstake batch plus the refunded outbound LST transfers awaiting re-send, plus what
+was given to it outside the protocol (donations, faucets, funds attached to calls that do not
+consume them) -/
+theorem C03_custody {env : Env} {info : Info} {msg : InstantiateMsg} {c0 : CState} {out : List SubMsg}
+    (hi : instantiate env info msg = .ok (c0, out)) (self pfx : String) (t hgt : Nat) (evs : List Event)
+    (hok : AllOK (bootWorld c0 self pfx t hgt) evs) :
+    let r := runW (bootWorld c0 self pfx t hgt) {} evs
+    r.1.bal r.1.self r.1.c.config.lstDenom
+      = pendTotal r.1.c + refundableSum r.1.c r.1.c.config.lstDenom + r.2.donL :=
+  (world_history_winv hi self pfx t hgt evs hok).l2
+
+/-- the per-step fact behind L2 for an unstake: it adds exactly the LST handed in to the pending batch -/
+theorem unstake_grows_pending (s s' : CState) (env : Env) (info : Info) (a : Nat) (out : List SubMsg)
     (h : liquidUnstake s env info a = .ok (s', out)) :
     ∃ b b', s.batches.find? s.pendingId = some b ∧ s'.batches.find? s.pendingId = some b'
       ∧ b'.total = b.total + a ∧ out = [] := by
   obtain ⟨ho, _, b, hb, hs'⟩ := liquidUnstake_eff h
   subst hs'
   exact ⟨b, grown b a (findReq s.reqs s.pendingId info.sender).isNone, hb, by simp [AMap.find?_insert], rfl, ho⟩
+
+/-! ### a concrete history that meets the hypotheses (non-vacuity; evaluated, not proved)
+
+boot → resume → stake (protocol recipient) → stake (native recipient: LST leaves by IBC) →
+error acknowledgement of the LST packet → permissionless recovery → unstake → timeout of the
+re-sent packet → donation.  The conditions `AllOK` hold (so `C03_custody` applies) and the state is
+non-trivial: supply 3000, pending batch 500, refundable 1000, donated 7, contract balance 1507. -/
+section Demo
+def demoSelf : String := "osmo1ejpjr43ht3y56pplm5pxpusmcrk9rkkvna4tklusnnwdxpqm0zlsjhwfeq"
+def demoAdmin : String := "osmo1335hded4gyzpt00fpz75mms4m7ck02wgj3xjgx"
+def demoUser : String := "osmo187fpqa68lnxvtrdc8qfzc9q5nvwxuk5p4k9l2m"
+def demoNativeUser : String := "celestia1ejn6ljfpemz9huuur4gm8evqfuu6usrgpfltla"
+def demoD : String := "ibc/C3E53D20BC7A4CC993B17C7971F8ECD06A433C10B6A96F4C4C3714F0624C56DA"
+def demoX : String := "factory/" ++ demoSelf ++ "/stTIA"
+
+def demoMsg : InstantiateMsg :=
+  { native := { accountPrefix := "celestia", validatorPrefix := "celestiavaloper", tokenDenom := "utia",
+                validators := ["celestiavaloper173ehxg25xha8j7w7hcjx0gk2wau7njcacmukjv"], unbondingPeriod := 1814400,
+                staker := "celestia1639jjhzpm4pu7pqa3pccxgp40lf5d6xvmaflzd",
+                rewardCollector := "celestia1qum06kmuc74hml5zr5ap07flyc6yjamsdk2m5n" },
+    proto := { accountPrefix := "osmo", ibcDenom := demoD, channel := "channel-7", minStake := 100, oracle := none },
+    feeCfg := { fee := 10000, treasury := none }, lstSubdenom := "stTIA", batchPeriod := 86400, monitors := [] }
+
+def demoEnv : Env :=
+  { timeNs := 1700000000000000000, height := 10, txIndex := some 0, contract := demoSelf, chainPrefix := "osmo" }
+
+def demoBoot : Option World :=
+  match instantiate demoEnv { sender := demoAdmin, funds := [] } demoMsg with
+  | .ok (c, _) => some (bootWorld c demoSelf "osmo" 1700000000000000000 10)
+  | .error _ => none
+
+def demoEvents : List Event :=
+  [ .exec demoAdmin [] (.resumeContract 0 0 0) {} (some 0),
+    .faucet demoUser ⟨demoD, 5000⟩,
+    .exec demoUser [⟨demoD, 2000⟩] (.liquidStake none none none) {} (some 0),
+    .exec demoUser [⟨demoD, 1000⟩] (.liquidStake (some demoNativeUser) none none) {} (some 1),
+    .ack 3 false,
+    .exec demoUser [] (.recover none none (some demoNativeUser)) {} (some 0),
+    .exec demoUser [⟨demoX, 500⟩] .liquidUnstake {} (some 0),
+    .timeout 4,
+    .donate demoUser ⟨demoX, 7⟩ ]
+
+#guard (demoBoot.map fun w => allOKb w demoEvents) == some true
+#guard (demoBoot.map fun w =>
+    let r := runW w {} demoEvents
+    (r.1.bal demoSelf demoX, r.1.supply demoX, r.1.c.st.totalLst, pendTotal r.1.c, refundableSum r.1.c demoX, r.2.donL,
+     r.1.pkts.length)) == some (1507, 3000, 3000, 500, 1000, 7, 4)
+end Demo
 
 /-- regression witness for the defect fixed in /repo (ce795a0): at totals 2000/1000 a stake of 1001
 mints 500 and the native-chain delivery now carries 500, not 1001 -/
